@@ -160,10 +160,12 @@ class Source:
         (start, ob, end), hdr = cands[0]
         return start, ob, end, kind, hdr
 
-    def locate_item(self, kind, name):
+    def locate_item(self, kind, name, nth=None):
         if kind == "impl":
             m = re.fullmatch(r"<(\w+) as (\w+)>", name)
             bl = self.find_impl(m.group(1), m.group(2)) if m else self.find_impl(name, None)
+            if nth is not None and 1 <= nth <= len(bl):
+                bl = [bl[nth - 1]]
             if len(bl) != 1:
                 raise ExtractError(f"{self.rel}: impl `{name}` matches {len(bl)} blocks")
             hdr, s, ob, cb = bl[0]
@@ -577,6 +579,133 @@ def rule_R17(text, applied):
     return text
 
 
+def rule_R7stack(text, applied):
+    """`for D in E.stack() {` (DecisionTracker::stack() = `self.stack.iter().copied()`) -> the R7ref form over the
+    field: `for &D in &E.stack {` (then rewritten by R7ref)."""
+    t, n = _sub_masked(text, r"\bfor\s+(\w+)\s+in\s+((?:\w+\.)*\w+)\.stack\(\)\s*(?=\{)", lambda m, s: f"for &{m.group(1)} in &{m.group(2)}.stack ")
+    if n:
+        applied.append(f"R7stackx{n}")
+    return t
+
+
+def rule_R7range(text, applied):
+    """`for I in A..B {` -> `let hi_ = B; let mut I_n = A; while I_n < hi_ { let I = I_n; I_n += 1;` (continue-safe;
+    the upper bound is evaluated once, as in the original)."""
+    cnt = 0
+    while True:
+        m_text = mask(text)
+        m = re.search(r"\bfor\s+(\w+)\s+in\s+([^\{\.]+?)\.\.(?!=)", m_text)
+        if not m:
+            break
+        ob = next_body_brace(m_text, m.end())
+        hi = text[m.end():ob].strip()
+        lo = text[m.start(2):m.end(2)].strip()
+        i_name = m.group(1)
+        head = f"let hi{cnt}_: usize = {hi}; let mut r{cnt}_: usize = {lo}; while r{cnt}_ < hi{cnt}_ {{ let {i_name} = r{cnt}_; r{cnt}_ += 1;"
+        text = text[:m.start()] + _keep_newlines(text[m.start():ob + 1], head) + text[ob + 1:]
+        cnt += 1
+    if cnt:
+        applied.append(f"R7rangex{cnt}")
+    return text
+
+
+def rule_R14err(text, applied):
+    """`E.map_err(|PAT| BODY)?` -> `(match E { Ok(v_) => v_, Err(PAT) => return Err(BODY) })` (std definition of
+    map_err followed by `?`; if the error types differ the result no longer type-checks => undecided)."""
+    cnt = 0
+    while True:
+        m_text = mask(text)
+        m = re.search(r"\.\s*map_err\s*\(", m_text)
+        if not m:
+            break
+        op = m.end() - 1
+        cp = match_close(m_text, op)
+        q = re.match(r"\s*\?", m_text[cp + 1:])
+        if not q:
+            raise ExtractError("R14err: map_err not followed by `?` (outside the subset)")
+        clos = text[op + 1:cp].strip()
+        cm = re.match(r"\|\s*([\w&]+)\s*\|\s*(.*)$", clos, re.S)
+        if not cm:
+            raise ExtractError("R14err: map_err argument is not a closure literal")
+        pat, body = cm.group(1), cm.group(2).strip().rstrip(",")
+        start = _receiver_start(m_text, m.start())
+        recv = text[start:m.start()]
+        pat2 = "_e" if pat == "_" else pat
+        new = f"(match {recv} {{ Ok(v_) => v_, Err({pat2}) => return Err({body}) }})"
+        end = cp + 1 + q.end()
+        text = text[:start] + _keep_newlines(text[start:end], new) + text[end:]
+        cnt += 1
+    if cnt:
+        applied.append(f"R14errx{cnt}")
+    return text
+
+
+def rule_R18(text, applied):
+    """`Iterator::try_fold` over the literal sequences of Clause::try_fold_literals -> verified helpers implementing
+    the std definition of try_fold (prelude/fold_helpers.rs):
+      `[A, B].into_iter().try_fold(I, F)`                                   -> `vtry_fold2(A, B, I, F)`
+      `E.iter().copied().try_fold(I, F)`                                    -> `vtry_fold_vec(&E, I, F)`
+      `iter::once(X).chain(Y.iter().flatten().map(|&s| s.positive())).try_fold(I, F)` -> `vtry_fold_requires(X, &Y, I, F)`"""
+    cnt = 0
+    while True:
+        m_text = mask(text)
+        m = re.search(r"\.\s*try_fold\s*\(", m_text)
+        if not m:
+            break
+        op = m.end() - 1
+        cp = match_close(m_text, op)
+        args = text[op + 1:cp].strip()
+        start = _receiver_start(m_text, m.start())
+        # arrays: `[A, B]` receiver start is the '['
+        recv = text[start:m.start()]
+        flat = "".join(recv.split())
+        ma = re.fullmatch(r"\[(.*),(.*?),?\]\.into_iter\(\)", flat)
+        mb = re.fullmatch(r"(.*)\.iter\(\)\.copied\(\)", flat)
+        mc = re.fullmatch(r"iter::once\((.*?)\)\.chain\((.*)\.iter\(\)\.flatten\(\)\.map\(\|&(\w+)\|\3\.positive\(\)\),?\)", flat)
+        if ma:
+            new = f"vtry_fold2({ma.group(1)}, {ma.group(2)}, {args})"
+        elif mc:
+            new = f"vtry_fold_requires({mc.group(1)}, &{mc.group(2)}, {args})"
+        elif mb:
+            new = f"vtry_fold_vec(&{mb.group(1)}, {args})"
+        else:
+            raise ExtractError(f"R18: try_fold receiver `{flat[:60]}` is not one of the three known shapes (outside the subset)")
+        text = text[:start] + _keep_newlines(text[start:cp + 1], new) + text[cp + 1:]
+        cnt += 1
+    if cnt:
+        applied.append(f"R18x{cnt}")
+    return text
+
+
+def rule_R8frozenindex(text, applied, arg=None):
+    """`M[&K]` on a FrozenMap stand-in -> `(*M.vindex(&K))` (Index panics when the key is absent: precondition);
+    arg = M (exact path)."""
+    t, n = _sub_masked(text, r"(?<![\w\.])" + re.escape(arg) + r"\[\s*&\s*([^\]]+)\]", lambda m, s: f"(*{arg}.vindex(&{m.group(1).strip()}))")
+    if n:
+        applied.append(f"R8frozenindex({arg})x{n}")
+    return t
+
+
+def rule_R14q(text, applied):
+    """`CALL(..)?` -> `(match CALL(..) { Ok(v_) => v_, Err(e_) => return Err(From::from(e_)) })`: the std desugaring of
+    `?` on a Result (Verus does not connect `?` with the error conversion's specification)."""
+    cnt = 0
+    while True:
+        m_text = mask(text)
+        m = re.search(r"\)\s*\?", m_text)
+        if not m:
+            break
+        q = m.end() - 1
+        start = _receiver_start(m_text, q)
+        expr = text[start:m.start() + 1]
+        new = f"(match {expr} {{ Ok(v_) => v_, Err(e_) => return Err(From::from(e_)) }})"
+        text = text[:start] + _keep_newlines(text[start:q + 1], new) + text[q + 1:]
+        cnt += 1
+    if cnt:
+        applied.append(f"R14qx{cnt}")
+    return text
+
+
 def rule_R10(text, applied, arg=None):
     """FnMut callback parameter -> logging sink object: `mut NAME: impl FnMut(..) [-> R]` becomes
     `NAME: &mut TYPE`, calls `NAME(args)` become `NAME.call(args)`.  arg = NAME=TYPE."""
@@ -935,7 +1064,7 @@ RULES = {
     "R1": rule_R1, "R2": rule_R2, "R2ref": rule_R2ref, "R3": rule_R3, "R4": rule_R4, "R5": rule_R5,
     "R8max": rule_R8max, "R8cmpmax": rule_R8cmpmax, "R8resize_none": rule_R8resize_none, "R9": rule_R9, "R8position": rule_R8position, "R8rotate": rule_R8rotate, "R12refcell": rule_R12refcell,
     "R8slice": rule_R8slice, "R7iter": rule_R7iter, "R8bitget": rule_R8bitget, "R8contains": rule_R8contains, "R12cell": rule_R12cell, "R8resize_veccap": rule_R8resize_veccap, "R8collectid": rule_R8collectid, "R8index": rule_R8index, "subst": rule_subst,
-    "R7ref": rule_R7ref, "R7array": rule_R7array, "R17": rule_R17,
+    "R7ref": rule_R7ref, "R14q": rule_R14q, "R7stack": rule_R7stack, "R18": rule_R18, "R8frozenindex": rule_R8frozenindex, "R7range": rule_R7range, "R14err": rule_R14err, "R7array": rule_R7array, "R17": rule_R17,
     "R13": rule_R13, "R14": rule_R14, "R2set": rule_R2set, "R8first": rule_R8first, "R7": rule_R7, "R10": rule_R10, "R11": rule_R11,
 }
 ALWAYS = [rule_vis, rule_tracing, rule_const]
@@ -1041,6 +1170,39 @@ def build_fn(src: Source, selector, opts, sections, emitter: Emitter, unit_rules
         if rname not in RULES:
             raise ExtractError(f"unknown rule {rn}")
         text = RULES[rname](text, applied, rarg) if rarg else RULES[rname](text, applied)
+    # R19 closure hoist + contract splice: `//@closure NAME` section = typed parameter list and contract that
+    # replace the `|params|` of the (single) closure literal; the closure is bound to NAME just before the
+    # statement that contains it and NAME is passed instead (argument evaluation order is unchanged: creating a
+    # closure has no effect).  The closure body is verbatim.
+    for key in list(sections):
+        if key.startswith("closure "):
+            cname = key.split()[1]
+            m_text = mask(text)
+            cm = re.search(r"\|[^|\n]*\|\s*\{", m_text)
+            if not cm or len(re.findall(r"\|[^|\n]*\|\s*\{", m_text)) != 1:
+                raise ExtractError(f"{selector}: R19 expects exactly one closure literal with a block body (lost anchor)")
+            cob = cm.end() - 1
+            ccb = match_close(m_text, cob)
+            body = text[cob:ccb + 1]
+            # start of the enclosing statement
+            k, depth = cm.start() - 1, 0
+            while k >= 0:
+                ch = m_text[k]
+                if ch in ")]}":
+                    depth += 1
+                elif ch in "([{":
+                    if depth == 0 and ch == "{":
+                        break
+                    depth -= 1 if depth > 0 else 0
+                elif ch == ";" and depth == 0:
+                    break
+                k -= 1
+            stmt = k + 1
+            header = " ".join(sections[key].split())
+            hoisted = f" let {cname} = {header} {body};"
+            text = text[:stmt] + hoisted + text[stmt:cm.start()] + cname + text[ccb + 1:]
+            applied.append(f"R19(closure->{cname})")
+            del sections[key]
     if text.count("\n") != raw.count("\n"):
         raise ExtractError(f"{selector}: rewrite changed the line count")
 
@@ -1171,7 +1333,7 @@ def build_fn(src: Source, selector, opts, sections, emitter: Emitter, unit_rules
 
 
 def build_item(src: Source, kind, name, opts, emitter: Emitter):
-    start, end = src.locate_item(kind, name)
+    start, end = src.locate_item(kind, name, int(opts["nth"]) if "nth" in opts else None)
     raw = src.text[start:end]
     first_line = line_of(src.text, start)
     text = strip_attrs_and_docs(raw)
